@@ -306,12 +306,16 @@ where
     };
     let mut runner = TestRunner::new(config);
     let failed = Cell::new(false);
+    let first: RefCell<Option<(C, String, String)>> = RefCell::new(None);
     let repc = RefCell::new(rep);
     let result = runner.run(&strat, |case| {
         let counting = !failed.get();
         match eval_filtered(ctx, &repc, engine, &case, &f, counting) {
             None => Ok(()),
-            Some((sig, _)) => {
+            Some((sig, detail)) => {
+                if !failed.get() {
+                    *first.borrow_mut() = Some((case.clone(), sig.clone(), detail));
+                }
                 failed.set(true);
                 Err(TestCaseError::fail(sig))
             }
@@ -323,8 +327,18 @@ where
         Err(TestError::Fail(_reason, minimal)) => {
             // re-evaluate the shrunk case to get its own signature/detail
             let out = guarded(ctx, &f, &minimal);
-            let (sig, detail) = out.fail.unwrap_or(("shrunk-case-passes".to_string(), "the minimal case did not fail when re-run (flaky?)".to_string()));
-            rep.failures.push(Failure { sig, detail, engine: engine.to_string(), case: serde_json::to_value(&minimal).unwrap(), env: nun_env() });
+            match out.fail {
+                Some((sig, detail)) => rep.failures.push(Failure { sig, detail, engine: engine.to_string(), case: serde_json::to_value(&minimal).unwrap(), env: nun_env() }),
+                None => {
+                    // the shrunk case passes: is the case that failed first reproducible at all?
+                    let (orig, osig, odetail) = first.into_inner().expect("a failure was recorded");
+                    let again = guarded(ctx, &f, &orig);
+                    match again.fail {
+                        Some((sig, detail)) => rep.failures.push(Failure { sig, detail, engine: engine.to_string(), case: serde_json::to_value(&orig).unwrap(), env: nun_env() }),
+                        None => rep.inconclusive.push(format!("{}: a failure did not reproduce when its case (shrunk and original) was run again, so it is not reported as a violation: {} :: {} :: case {}", engine, osig, odetail.chars().take(600).collect::<String>(), serde_json::to_string(&orig).unwrap_or_default().chars().take(600).collect::<String>())),
+                    }
+                }
+            }
         }
         Err(TestError::Abort(reason)) => {
             rep.inconclusive.push(format!("{}: proptest aborted: {}", engine, reason));
